@@ -13,7 +13,7 @@ namespace Aldy
 structure Mut where
   pos : Int
   op : String
-deriving DecidableEq, Repr, BEq, Hashable
+deriving DecidableEq, Repr, Hashable
 
 /-- Python's tuple order on `(pos, op)`. -/
 def Mut.lt (a b : Mut) : Bool := a.pos < b.pos || (a.pos == b.pos && a.op < b.op)
